@@ -28,7 +28,9 @@ assert struct.calcsize(HEADER_FMT) == 300
 
 
 def _cstr(b: bytes) -> str:
-    return b.replace(b"\x00", b"").decode("ascii", "ignore")
+    """CHAR[n]: a NUL-terminated string (the whole field when no NUL is present); what follows the terminator is whatever
+    the buffer held before (open2jam reads up to the first 0 byte)"""
+    return b.split(b"\x00", 1)[0].decode("ascii", "ignore")
 
 
 def parse(data: bytes) -> dict:
@@ -112,7 +114,7 @@ def parse(data: bytes) -> dict:
 
 
 def _pad(s, n) -> bytes:
-    b = s if isinstance(s, bytes) else s.encode("ascii")
+    b = s if isinstance(s, bytes) else s.encode("latin-1")
     return b[:n] + b"\x00" * (n - len(b[:n]))
 
 
